@@ -297,7 +297,7 @@ func RunCache(sc CacheScenario, base string, emit func(Ev)) error {
 type ConcScenario struct {
 	Scen  int         `json:"scen"`
 	Src   string      `json:"src"`
-	Query string      `json:"query"` // today (latest status) | recent
+	Query string      `json:"query"` // today (latest status) | recent | find (lookup of the run being closed)
 	N     int         `json:"n"`
 	Steps []CacheStep `json:"steps"`
 }
@@ -410,6 +410,14 @@ func RunConc(sc ConcScenario, base string, emit func(Ev)) error {
 				return []int{}
 			}
 			return []int{verOf(st)}
+		}
+		if sc.Query == "find" {
+			// the lookup of the run that is being closed
+			sf, err := server.FindByRequestID(dagFile, status(2).RequestID)
+			if err != nil || sf == nil {
+				return []int{}
+			}
+			return []int{verOf(sf.Status)}
 		}
 		out := []int{}
 		for _, sf := range server.ReadStatusRecent(dagFile, sc.N) {
